@@ -510,6 +510,44 @@ theorem xDBLMUL_generated_correct {a : F} (h2 : (2 : F) ≠ 0) (NW BITS : Nat) (
   rw [SqiProofs.LadderGen.xDBLMUL_eq NW BITS hW hn k l hk hl]
   exact xDBLMUL_correct h2 BITS hn k l hk0 hk hl0 hl curve hA hC hflag Pt Qt P Q PQ hP hQ hD nP nQ nS nD
 
+theorem xDBLMUL_bounded_generated_correct {a : F} (h2 : (2 : F) ≠ 0) (NW BITS TPE : Nat) (hW : 64 * NW = BITS)
+    (hn : 0 < BITS) (k l f : Nat) (hk : k < 2 ^ BITS) (hl : l < 2 ^ BITS)
+    (curve : EcCurve F) (hA : curve.A = a * curve.C) (hC : curve.C ≠ 0)
+    (hflag : curve.is_A24_computed_and_normalized ≠ 0 → 4 * curve.A24.x = a + 2)
+    (hkb : oddify BITS k < 2 ^ (f + 2 + (BITS - TPE) + 1)) (hlb : oddify BITS l < 2 ^ (f + 2 + (BITS - TPE) + 1))
+    (Pt Qt : (mont a).Point) (P Q PQ : EcPoint F)
+    (hP : IsX Pt P.x P.z) (hQ : IsX Qt Q.x Q.z) (hD : IsX (Pt - Qt) PQ.x PQ.z)
+    (nP : XNonDeg Pt) (nQ : XNonDeg Qt) (nS : XNonDeg (Pt + Qt)) (nD : XNonDeg (Pt - Qt)) :
+    IsX (chainScalar BITS k • Pt + chainScalar BITS l • Qt)
+      (SqiGen.xDBLMUL_bounded NW BITS TPE P k Q l PQ curve f).x (SqiGen.xDBLMUL_bounded NW BITS TPE P k Q l PQ curve f).z := by
+  rw [SqiProofs.LadderGen.xDBLMUL_bounded_eq NW BITS TPE hW hn k l hk hl]
+  exact xDBLMUL_bounded_correct h2 BITS hn _ k l curve hA hC hflag hkb hlb Pt Qt P Q PQ hP hQ hD nP nQ nS nD
+
+theorem DBLMUL_generated_correct {a : F} (h2 : (2 : F) ≠ 0) (curve : EcCurve F) (hA : curve.A = a) (k l : Nat)
+    (P Q : (mont a).Point) (JP JQ : JacPoint F) (hP : IsJacC P JP) (hQ : IsJacC Q JQ) (hadd : AddGood P Q)
+    (hg : dblmulGood P Q 0 ((bitsMSB 64 k).zip (bitsMSB 64 l))) :
+    IsJacC ((k % 2 ^ 64) • P + (l % 2 ^ 64) • Q) (SqiGen.DBLMUL JP k JQ l curve) := by
+  rw [SqiProofs.LadderGen.DBLMUL_eq]
+  exact jacDBLMUL_correct h2 curve hA 64 k l P Q JP JQ hP hQ hadd hg
+
+theorem DBLMUL_generic_generated_correct {a : F} (h2 : (2 : F) ≠ 0) (curve : EcCurve F) (hA : curve.A = a)
+    (size k l : Nat) (P Q : (mont a).Point) (JP JQ : JacPoint F) (hP : IsJacC P JP) (hQ : IsJacC Q JQ)
+    (hadd : AddGood P Q) (hg : dblmulGood P Q 0 ((bitsMSB (64 * size) k).zip (bitsMSB (64 * size) l))) :
+    IsJacC ((k % 2 ^ (64 * size)) • P + (l % 2 ^ (64 * size)) • Q) (SqiGen.DBLMUL_generic JP k JQ l curve size) := by
+  rw [SqiProofs.LadderGen.DBLMUL_generic_eq]
+  exact jacDBLMUL_correct h2 curve hA (64 * size) k l P Q JP JQ hP hQ hadd hg
+
+/-- `TPL` (naive tripling `ADD(DBL(P), P)`): `[3]P` in canonical form, unless `P` or the pair `([2]P, P)` hits the order-2
+doubling exception. -/
+theorem TPL_correct {a : F} (h2 : (2 : F) ≠ 0) (AC : EcCurve F) (hA : AC.A = a) (Pt : (mont a).Point) (J : JacPoint F)
+    (hJ : IsJacC Pt J) (hd : DblGood Pt) (ha : AddGood (Pt + Pt) Pt) : IsJacC (3 • Pt) (TPL J AC) := by
+  have h2P := DBL_canonical h2 AC hA Pt J hJ hd
+  have h3 := (ADD_correct h2 AC hA (Pt + Pt) Pt (DBL J AC) J h2P hJ).2 ha
+  have e : (3 : ℕ) • Pt = Pt + Pt + Pt := by
+    rw [show (3 : ℕ) = 2 + 1 from rfl, add_nsmul, two_nsmul, one_nsmul]
+  rw [e]
+  simpa [TPL] using h3
+
 /-! ## non-vacuity: a concrete curve and point satisfying the hypotheses (over ℚ) -/
 
 /-- `P₀ = (2, 4)` on `y² = x³ + (3/2)x² + x` -/
